@@ -59,8 +59,12 @@ FragSeeds ==
 
 MCSeeds == (IF WithPlumb THEN PlumbSeeds ELSE {}) \cup (IF WithFrag THEN FragSeeds ELSE {})
 
-MCScenariosOf(s) ==
-  {x \in {[s EXCEPT !.text = t] : t \in SeqsUpTo(Alphabet(s.enc, s.alpha)
-                                                  \cup (IF s.enc = "u8" /\ s.bom = "none" /\ s.label = "utf-8" THEN {"bad"} ELSE {}), s.maxlen)}
-     : Sensible(x)}
+\* texts over the alphabet; behind a mark also texts that begin with U+FEFF themselves (exactly ONE mark is the mark)
+TextsOf(s) ==
+  LET al == Alphabet(s.enc, s.alpha) \cup (IF s.enc = "u8" /\ s.bom = "none" /\ s.label = "utf-8" THEN {"bad"} ELSE {}) IN
+  SeqsUpTo(al, s.maxlen)
+    \* (well-formed texts only: the deviation known for these inputs is kept apart from the ones known for malformed ends)
+    \cup (IF s.bom # "none" /\ s.enc \in {"le", "be", "u8"} /\ ~s.frag /\ ~s.odd /\ s.maxlen >= 1
+          THEN {<<"feff">> \o t : t \in SeqsUpTo(al \ {"hi", "lo"}, s.maxlen - 1)} ELSE {})
+MCScenariosOf(s) == {x \in {[s EXCEPT !.text = t] : t \in TextsOf(s)} : Sensible(x)}
 =============================================================================
